@@ -334,8 +334,35 @@ def c16():
     }
 
 
+def c19():
+    import suite_analysis
+    return {
+        "props_file": "Props/C19.v",
+        "theorems": ["C19_selection", "C19_selection_maximal", "C19_counts", "C19_isim_direct",
+                     "C19_member_order_irrelevant", "C19_dunn_rows", "C19_dunn_clusters",
+                     "C19_chi_clusters", "C19_chi_rows", "C19_dbi_clusters",
+                     "C19_dunn_singleton_refuted"],
+        "model_files": ["Model/Analysis.v", "Model/ObsBits.v"],
+        "suites": [suite_analysis.suite_analysis, suite_analysis.suite_indices],
+        "search": suite_analysis.search_c19,
+        "replay": suite_analysis.replay_c19,
+        "findings": {"dunn-singleton-nan-order": suite_analysis.finding_dunn_singleton},
+        "level": "proof",
+        "rule": "clusterings produced by BitBirch on noisy-prototype data; cluster_analysis over array / "
+                ".npy file / file sequence providers, packed and unpacked, top in {None,1,2,5,20}, "
+                "min_size 0-3; indices on the non-singleton clusters incl. one tall case (column sums "
+                "beyond uint8), packed vs unpacked, 2 random permutations of clusters and rows each",
+        "trusted": COMMON_TRUST + ["NumPy's summation order in np.dot / np.sum of float arrays is not "
+                                   "modelled: CHI/DBI are compared with the exact (rational) combination "
+                                   "of the model's bit-exact terms within 1e-9 relative"],
+        "assumptions": ["Dunn invariance under cluster order is proved for lists without NaN values; the "
+                        "singleton case is an open finding"],
+    }
+
+
 SPECS = {
     "C01": c01,
+    "C19": c19,
     "C18": c18,
     "C20": c20,
     "C04": c04,
